@@ -41,6 +41,9 @@ def main():
     ap.add_argument("--checks", default=None)
     ap.add_argument("--tier", default="quick")
     ap.add_argument("--procs", default="12")
+    ap.add_argument("--recheck", action="store_true",
+                    help="seed already confirmed: only re-run the checks and store the outcome under "
+                         "meta['detection_after_strengthening']")
     a = ap.parse_args()
     prop = a.prop.upper()
     sid = f"{prop}-{a.n}"
@@ -80,7 +83,7 @@ def main():
             result["status"] = "rejected: demo passes with the change"
             return finish(result, dest, wt, None)
         result["demo_changed_tail"] = out[-600:]
-        if not a.skip_suite:
+        if not a.skip_suite and not a.recheck:
             t0 = time.time()
             rc, out = run([PY, "-m", "pytest", "-q", "-p", "no:cacheprovider", "--timeout=900", "-n", "10",
                            "--continue-on-collection-errors", "tests"], wt, env, 7200)
@@ -107,6 +110,15 @@ def main():
             # replays written for the changed tree are not kept
         result["checks"] = det
         result["status"] = "confirmed"
+        if a.recheck:
+            mp = os.path.join(dest, "meta.json")
+            meta = json.load(open(mp))
+            meta.setdefault("detection_after_strengthening", {}).update(
+                {c: dict(v, verif_commit=subprocess.check_output(["git", "-C", VERIF, "rev-parse", "--short", "HEAD"], text=True).strip())
+                 for c, v in det.items()})
+            json.dump(meta, open(mp, "w"), indent=1)
+            print(json.dumps(det, indent=1))
+            return 0
         return finish(result, dest, wt, src)
     finally:
         subprocess.call(["git", "-C", "/repo", "worktree", "remove", "--force", wt])
